@@ -387,7 +387,7 @@ def segments_intersect_facets(segments, facets, eps=1e-6):
     return cross * same_volume
 
 
-def get_intersecting_triangles(vertices, triangles, r=None, r_factor=1.5, eps=1e-6):
+def get_intersecting_triangles(vertices, triangles, r=None, r_factor=2.0, eps=1e-6):
     """Return intersecting triangles indices from a triangular mesh described
     by vertices and triangles indices.
 
